@@ -329,7 +329,7 @@ def correspondence(ctx):
     rng = random.Random(ctx.seed)
     quick = ctx.tier == 'quick'
     n_cases = 150 if quick else 5000
-    n_sweep = 450 if quick else 6000
+    n_sweep = 300 if quick else 6000
     cases = [gen_case(rng, i) for i in range(n_cases)]
     res = run_cases(ctx, cases)
     mn, h = res['constants']['m_n'], res['constants']['h']
